@@ -381,6 +381,9 @@ def parse_dag_answer(ans):
     return out
 
 
+_AFTER_END = [0]
+
+
 def lib_build(nodes, route='ctor'):
     """Builds real library cells for every node; returns list of Cell or None (constructor raised)."""
     from pytoniq_core.boc.cell import Cell
@@ -405,7 +408,12 @@ def lib_build(nodes, route='ctor'):
                     b.store_ref(k)
                 c = b.end_cell()
                 # the builder stays in use after end_cell: the cell taken earlier must not notice
-                for f in (lambda: b.store_bit(1), lambda: b.store_ref(c)):
+                writes = [lambda: b.store_bit(1), lambda: b.store_ref(c), lambda: b.store_bytes(b'\xa5'), lambda: b.store_string('z'),
+                          lambda: b.store_snake_bytes(b'yz'), lambda: b.store_uint(5, 3), lambda: b.store_bits('01'), lambda: b.store_cell(c),
+                          lambda: b.store_slice(c.begin_parse()), lambda: b.store_coins(7), lambda: b.store_address(None)]
+                _AFTER_END[0] += 1
+                k0 = _AFTER_END[0] % len(writes)          # which kind of store comes FIRST after end_cell rotates
+                for f in writes[k0:] + writes[:k0]:
                     try:
                         f()
                     except Exception:
